@@ -2130,7 +2130,7 @@ def c12_lazy(threads, schedule=None):
     return out
 
 
-def c12_autocorr_dask(tchunks, lead, nodata):
+def c12_autocorr_dask(tchunks, lead, nodata, dtype="int16"):
     """autocorr through the accessor on a dask-backed cube (time chunked into `tchunks` blocks, y/x in 1-pixel .. full chunks) vs the
     in-memory result: same values, dims, dtype."""
     import xarray as xr
@@ -2138,10 +2138,16 @@ def c12_autocorr_dask(tchunks, lead, nodata):
     import hdc.algo  # noqa
     rng = np.random.default_rng(12)
     T = 12
-    nd = int(nodata) if -32768 <= int(nodata) <= 32767 else -9999
-    cube = rng.integers(0, 300, size=(T, 3, 4)).astype("int16")
-    cube[cube == nd] += 1
-    cube[rng.random(size=cube.shape) < 0.15] = nd
+    info = np.iinfo(dtype)
+    nd = int(nodata)
+    cube = rng.integers(max(0, int(info.min)), min(300, int(info.max)) + 1, size=(T, 3, 4)).astype(dtype)
+    if info.min <= nd <= info.max:
+        cube[cube == nd] += 1
+        cube[rng.random(size=cube.shape) < 0.15] = nd
+    else:
+        # a marker the dtype cannot hold: no cell is missing; put the value it would wrap to into the data (those cells are observations)
+        wrapped = int(np.array(nd).astype(dtype))
+        cube[rng.random(size=cube.shape) < 0.2] = wrapped
     da = xr.DataArray(cube, dims=("time", "y", "x"), attrs={"nodata": nd})
     if not lead:
         da = da.transpose("y", "x", "time")
